@@ -12,6 +12,11 @@ Case (JSON):
    "script": str, "host": str, "query": str|null, "anchor": str|null [, "expect_fail": clause]}
   ATOM = ["s",text] | ["b",[byte...]] | ["i","-12"] | ["o","1.5"|"None"|"True"|"False"|"1.0"|"0.0"|"2.50" (a Decimal)]
   optional "kw_history": [[[key, VAL]...]...] — keyword dictionaries of earlier route_path calls on the same route object
+  optional "req_history": {"start_script": str, "start_path_info": str, "steps": [["path"] | ["url"] | ["assign", str] |
+            ["pop"] | ["peek"]...]} — ONE request object: it starts under start_script / start_path_info, route_path /
+            route_url are called on it, SCRIPT_NAME moves (request.script_name = …, request.path_info_pop(),
+            request.path_info_peek()), and only then comes the case's own call; "script" is the SCRIPT_NAME the request
+            has at that moment (the steps must lead there), and the answer must be a fresh request's
   optional "history": [[ATOM...]...] — element tuples of earlier route_path calls on the same route (the lru_cache)
 """
 import json, re, sys
@@ -159,8 +164,52 @@ def norm_split(text):
     return out
 
 
+def sim_req_history(rh):
+    """(script, path_info) a request has after the steps, by the documented meaning of the operations: assignment sets
+    SCRIPT_NAME; path_info_pop moves the leading slashes and the first segment of PATH_INFO to the end of SCRIPT_NAME;
+    path_info_peek and the URL calls change nothing"""
+    script, pi = rh['start_script'], rh['start_path_info']
+    for st in rh['steps']:
+        if st[0] == 'assign':
+            script = st[1]
+        elif st[0] == 'pop':
+            if pi:
+                rest = pi.lstrip('/')
+                slashes = pi[:len(pi) - len(rest)]
+                idx = rest.find('/')
+                if idx == -1:
+                    idx = len(rest)
+                script += slashes + rest[:idx]
+                pi = rest[idx:]
+        elif st[0] not in ('path', 'url', 'peek'):
+            raise ValueError('bad step')
+    return script, pi
+
+
+def wf_req_history(case):
+    rh = case.get('req_history')
+    if rh is None:
+        return True
+    if not (isinstance(rh, dict) and isinstance(rh.get('start_script'), str) and isinstance(rh.get('start_path_info'), str)
+            and isinstance(rh.get('steps'), list)):
+        return False
+    for st in rh['steps']:
+        if not (isinstance(st, list) and st and st[0] in ('path', 'url', 'assign', 'pop', 'peek')):
+            return False
+        if st[0] == 'assign' and not (len(st) == 2 and isinstance(st[1], str) and (st[1] == '' or st[1].startswith('/'))):
+            return False
+    if rh['start_script'] and not rh['start_script'].startswith('/'):
+        return False
+    if rh['start_path_info'] and not rh['start_path_info'].startswith('/'):
+        return False
+    rh['start_script'].encode('utf-8'); rh['start_path_info'].encode('utf-8')
+    return sim_req_history(rh)[0] == case['script']
+
+
 def wf_case(case):
     try:
+        if not wf_req_history(case):
+            return False
         if not faithful(case['intent']):
             return False
         keys = [k for k, _ in case['kw']]
@@ -433,8 +482,33 @@ def impl(case, isolated=False):
         for h in case['history']:
             call(hreq.route_path, 'r', *[atom_py(a) for a in h], **dict(kw))
     out['gen'] = call(route.generate, dict(kw))
-    req = Request(dict(env))
-    req.registry = registry
+    rh = case.get('req_history')
+    if rh:
+        # ONE request object with a past: earlier URL calls, then SCRIPT_NAME / PATH_INFO move
+        env0 = dict(env)
+        env0['SCRIPT_NAME'] = rh['start_script'].encode('utf-8').decode('latin-1')
+        env0['PATH_INFO'] = rh['start_path_info'].encode('utf-8').decode('latin-1')
+        req = Request(env0)
+        req.registry = registry
+        for st in rh['steps']:
+            if st[0] == 'path':
+                call(req.route_path, 'r', **dict(kw))
+            elif st[0] == 'url':
+                call(req.route_url, 'r', **dict(kw))
+            elif st[0] == 'assign':
+                req.script_name = st[1]
+            elif st[0] == 'pop':
+                req.path_info_pop()
+            else:
+                req.path_info_peek()
+        out['req_script'] = call(lambda: req.script_name)
+        fresh = Request(dict(req.environ))
+        fresh.registry = registry
+        out['fresh_path'] = call(fresh.route_path, 'r', *elems, **dict(kw, **special))
+        out['fresh_url'] = call(fresh.route_url, 'r', *elems, **dict(kw, **special))
+    else:
+        req = Request(dict(env))
+        req.registry = registry
     out['path'] = call(req.route_path, 'r', *elems, **dict(kw, **special))
     out['url'] = call(req.route_url, 'r', *elems, **dict(kw, **special))
     out['path0'] = call(req.route_path, 'r', **dict(kw))
@@ -618,6 +692,12 @@ def oracle(case, got, an):
     if 'config_error' in got:
         return bad
     path, url, path0 = got['path'], got['url'], got['path0']
+    if case.get('req_history'):
+        # the request object's past does not matter: a fresh request with the same environ answers the same
+        if got.get('req_script') != {'ok': case['script']}:
+            return [('harness-req-history', [got.get('req_script'), case['script']])]
+        if path != got['fresh_path'] or url != got['fresh_url']:
+            bad.append(('same-as-fresh-request', [path, got['fresh_path'], url, got['fresh_url']]))
     # route URL = scheme://authority + route path (same failure otherwise)
     if 'ok' in path and 'ok' in url:
         if url['ok'] != got['host_url'] + path['ok']:
@@ -950,10 +1030,32 @@ def gen_case(rng, intent=None):
     if history:
         case['history'] = history
     if rng.random() < 0.12:
+        case['req_history'] = gen_req_history(rng, case)
+    if rng.random() < 0.12:
         kh = gen_kw_history(rng, it, kw)
         if kh:
             case['kw_history'] = kh
     return case
+
+
+def gen_req_history(rng, case):
+    """the case's request object gets a past; the steps end with SCRIPT_NAME = case['script']"""
+    final = case['script']
+    calls = [rng.choice([['path'], ['url']]) for _ in range(rng.choice([1, 1, 2]))]
+    r = rng.random()
+    parts = final.rsplit('/', 1)
+    if r < 0.4 and final and parts[1] != '':
+        # a dispatcher hands a sub-mount over: the last segment of SCRIPT_NAME is still in PATH_INFO
+        rh = {'start_script': parts[0], 'start_path_info': '/' + parts[1] + rng.choice(['', '/', '/x/y']),
+              'steps': calls + [['pop']]}
+    elif r < 0.85:
+        start = rng.choice([x for x in SCRIPTS + ['/old', '/a%20b'] if x != final] or [''])
+        rh = {'start_script': start, 'start_path_info': rng.choice(['', '/', '/p/q']), 'steps': calls + [['assign', final]]}
+    else:
+        rh = {'start_script': final, 'start_path_info': rng.choice(['/', '/p/q']), 'steps': calls + [['peek']]}
+    if rng.random() < 0.3:
+        rh['steps'].append(rng.choice([['path'], ['url'], ['peek']]))
+    return rh
 
 
 def equal_variant(rng, a):
@@ -1081,7 +1183,7 @@ def new_dist():
     return {'tokens': {}, 'placeholders_per_pattern': {}, 'rest': 0, 'custom_regex': 0, 'value_types': {}, 'rest_forms': {},
             'elements': {}, 'script': {}, 'outcomes': {}, 'admissible': 0, 'not_admissible': {}, 'roundtrips_performed': 0,
             'needs_quoting': 0, 'non_ascii_value': 0, 'reserved_in_value': 0, 'missing_value': 0, 'unquotable': 0,
-            'outside_model': 0, 'config_error': 0, 'template_not_readable': 0, 'rest_with_control_char': 0, 'with_history': 0, 'with_kw_history': 0, 'history_equal_other_type': 0, 'excluded_points_replayed': 0, 'query': 0, 'anchor': 0}
+            'outside_model': 0, 'config_error': 0, 'template_not_readable': 0, 'rest_with_control_char': 0, 'with_history': 0, 'with_kw_history': 0, 'with_req_history': {}, 'history_equal_other_type': 0, 'excluded_points_replayed': 0, 'query': 0, 'anchor': 0}
 
 
 def note_dist(dist, case, info):
@@ -1104,6 +1206,8 @@ def note_dist(dist, case, info):
         if k == an['rest']:
             bump(dist['rest_forms'], 'string' if v[0] == 'one' else 'sequence')
     bump(dist['elements'], str(len(case['elems'])))
+    if case.get('req_history'):
+        bump(dist['with_req_history'], '+'.join(sorted({st[0] for st in case['req_history']['steps'] if st[0] in ('assign', 'pop', 'peek')})) or 'calls')
     if case.get('kw_history'):
         dist['with_kw_history'] += 1
     if case.get('history'):
